@@ -81,6 +81,12 @@ def classify(scn, line):
         closed = {x["c"] for x in scn[:line - 1] if x["op"] == "srv.close"}
         if pend and not all(int(x["s"][1:]) in closed for x in pend):
             return "quiescent:connection-not-closed-at-session-end"
+        # a session whose read timed out (keep-alive expiry) and that was never torn down
+        timed = {x["c"] for x in scn[:line - 1] if x["op"] == "conn.timeout"}
+        down = {int(x["s"][1:]) for x in pend if x["s"][1:].isdigit()}
+        est = {x["c"] for x in scn[:line - 1] if x["op"] == "srv.write" and x.get("kind") == "CONNACK" and x.get("code") == 0}
+        if (timed & est) - down:
+            return "quiescent:silent-session-still-served"
         first = next((x for x in scn if x["op"] == "log.append"), None)
         delivered = {x["p"] for x in scn[:line - 1] if x["op"] == "srv.write" and x.get("kind") == "PUBLISH"}
         if first and first.get("off") == 0 and first["p"] not in delivered:
@@ -89,6 +95,8 @@ def classify(scn, line):
     if op == "conn.timeout":
         last = [x for x in scn[:line - 1] if x["op"] == "cli.send" and x["c"] == e["c"]]
         return "timeout-within-keepalive" + ("-right-after-connect" if last and last[-1].get("kind") == "CONNECT" else "")
+    if op == "cli.send" and "dropped" not in e:
+        return "silent-session-still-served"
     if op == "srv.write":
         return "srv.write:%s-unexplained" % e.get("kind")
     if op == "log.append":
